@@ -131,7 +131,8 @@ PROPS = {
     ),
     "C20": dict(
         domain="determinism", module="Props.C20",
-        theorems=["C20_iteration_order_is_membership", "C20_join_order_is_membership"],
+        theorems=["C20_iteration_order_is_membership", "C20_join_order_is_membership",
+                  "C20_serialisation_order_is_the_join_order"],
         required="faithful",
         nontrivial="history uses a hash-map based storage (ids 3, 9, 14)",
     ),
